@@ -60,4 +60,48 @@ CLAIMED["C03"] = {
     "note": BASE_NOTE + "The reference interpretation itself is the L0 model of int()/float()/strptime/UTF-8 (validated against CPython at primitive level).",
     "technique": "Coq proof (definitional refinement + locality lemmas) + differential correspondence (exhaustive adversarial alphabet)",
 }
+CLAIMED["C01"] = {
+    "text": "Theorems (closed): for every layout of non-overlapping fields in any order and every fitting value list, reading the written "
+            "line returns per field the re-read rendering, whatever the reading line's slots held; canonical forms: integers unchanged, "
+            "literals trimmed, missing -> None/'' , dates truncated to the format (year >= 1000), floats in F notation = the double "
+            "nearest to the emitted decimal N/10^d with d <= declared decimals and 2|N*den-num| <= den (exact half unit); the only "
+            "decimal mark is the configured separator; text stability for int/literal/missing/date fields and, for lines, under the "
+            "explicit per-field hypothesis stable_field (PARTIAL for floats: nearest-point property of rn64 not proved; E notation "
+            "is covered by the correspondence and the exact-Fraction oracle only); setters = constructor. Refuted for the code as found.",
+    "note": BASE_NOTE + "Float text stability and E-notation bounds rest on the correspondence + exact rational oracle, not on a theorem.",
+    "technique": "Coq proof (frame + span lemmas, printer/parser inverses for int/fixed-point/date text, exact half-even bound) + differential correspondence",
+}
+CLAIMED["C04"] = {
+    "text": "Theorems (closed): for every register list and text content the loop terminates within |content|+1 steps, yields exactly the "
+            "lines of the content in order (split_lines, which concatenate back to the content), each dispatched to the first declared "
+            "register whose identifier occurs in the leading window else default; default elements hold the line verbatim and typed data "
+            "are a function of that line alone. Tied to RegisterFile.read by a complete small scope over line pools and random grammars.",
+    "note": BASE_NOTE + "Identifier matching is modelled for metacharacter-free identifiers (substring search); the dispatch theorems hold for the model's reg_matches.",
+    "technique": "Coq proof (generic fuelled loop refined to an inductive specification, induction on lines) + differential correspondence",
+}
+CLAIMED["C09"] = {
+    "text": "Theorems (closed): little-endian two's-complement encode/decode are mutually inverse for every width and every in-range "
+            "integer / every byte pattern (the 65 536 int16 patterns are an instance, also enumerated completely by the check); "
+            "out-of-range is rejected, short buffers read as None; float encodings have the field width and every non-NaN bit pattern of "
+            "binary16/32/64 survives decode/encode; missing -> zero/blanks; a binary line is max-stop bytes with each field in its span. "
+            "Rounding to the narrower IEEE width is SpecFloat.binary_normalize, tied bit-for-bit to numpy by the correspondence.",
+    "note": BASE_NOTE + "That SpecFloat.binary_normalize is round-to-nearest-even is Flocq's result, not re-proved; checked against numpy/struct on all float16 patterns and random patterns.",
+    "technique": "Coq proof (div/mod byte arithmetic, bit-field decomposition) + differential correspondence (complete int16 range)",
+}
+CLAIMED["C11"] = {
+    "text": "Theorems (closed): the delimited line is the trimmed single-field renderings joined by the delimiter + newline; reading gives "
+            "field i the reading of trimmed token i or a missing value when absent, independent of the previous slot contents (no "
+            "carry-over), surplus tokens ignored; split after join is the identity for a one-character delimiter absent from the tokens. "
+            "The code as found is refuted. Tied to Line.read/write through sequences of 1-6 reads with short/exact/long/padded lines.",
+    "note": BASE_NOTE + "Multi-character delimiters: the tokenisation premise split(join(toks)) = toks is evaluated per case (DESIGN 8.3).",
+    "technique": "Coq proof (split/join lemmas, slot-independence) + differential correspondence over read sequences",
+}
+CLAIMED["C12"] = {
+    "text": "Theorems (closed): for every block list, content and storage the loop terminates, the elements' raw data concatenate to the "
+            "content and writing reproduces it exactly; the elements are those of the inductive specification (first declared begin "
+            "match on the first line / first byte, else a one-line default block). Refuted for the code as found in binary storage. "
+            "Tied to BlockFile.read/write with raw blocks over regex pattern pools, complete small scope + random, text and binary.",
+    "note": BASE_NOTE + "Patterns are alternations of optionally ^-anchored literals (translated fail-closed to Python regexes); blocks are the harness's raw blocks.",
+    "technique": "Coq proof (accounting invariant of the generic loop, progress measure) + differential correspondence",
+}
 NOT_APPLICABLE = {}
